@@ -4,12 +4,12 @@ CONSTANTS
   ConnCfgs <- MCConnCfgs
   Progs <- MCProgs
   PMSet <- MCPMSet
-  FaultKinds = {}
-  Family = "prepared"
+  FaultKinds = {"swd", "w"}
+  Family = "fault"
   Roles = {"server", "client"}
   PmceSet = {FALSE, TRUE}
   PoolSet = {FALSE, TRUE}
-  Quick = FALSE
+  Quick = TRUE
 CONSTRAINT Emit
 INVARIANTS InvRefines InvWire InvCloseLast InvFailStop InvPool
 CHECK_DEADLOCK FALSE
